@@ -1324,10 +1324,12 @@ class App(falcon.app.App):
                 if resp:
                     # NOTE: Discard whatever the handler set before raising
                     resp.text = resp.data = resp.media = None
+                    resp.sse = None
                 await self._http_status_handler(req, resp, status, params, ws=ws)
             except HTTPError as error:
                 if resp:
                     resp.text = resp.data = resp.media = None
+                    resp.sse = None
                 await self._http_error_handler(req, resp, error, params, ws=ws)
 
             return True
